@@ -35,6 +35,8 @@ function r_add(s) return s + 0 end
 function r_radd(s) return 0 + s end
 function r_unm(s) return -(-s) end
 function r_chk(s) return math.max(s) end
+-- step 0 keeps the control variable exact: Lua computes it as (init - step) + step, which rounds for a non-zero step
+function r_for(s) for i = s, s, 0 do return i end end
 function q_fmt(s) return string.format('%q', s) end
 function q_back(q) local f, e = loadstring('return ' .. q) if not f then return false, e end return true, f() end
 function ts_tostring(x) local t = tostring(x) return t, tonumber(t) == x end
@@ -242,6 +244,7 @@ func c16Num(args []string) int {
 			"radd":  one(L, "r_radd", s),
 			"unm":   one(L, "r_unm", s),
 			"chk":   one(L, "r_chk", s),
+			"for":   one(L, "r_for", s),
 		}
 		bs := make([]interface{}, len(inp.Bases))
 		for j, b := range inp.Bases {
